@@ -183,9 +183,6 @@ def run_family(ctx, prefix="C07"):
     for c in (cases[5], cases[-1]):
         ctx.sample({"k": c["k"], "tag": c.get("tag"),
                     "shape": c.get("seeded") or (c["mesh"]["idx"] if c["k"] == "sw" else [r["n"] for r in c["gen"]])})
-    idle = [p for p in PREDICATES if ex.get(p, 0) == 0]
-    if idle:
-        raise core.Infra("predicates never exercised: %s" % idle)
     per_sig = {}
     for f in findings:
         if f["pred"].startswith("Harness."):
@@ -200,7 +197,12 @@ def run_family(ctx, prefix="C07"):
         what = "%s rejected a %s %s case" % (f["pred"], c.get("tag", ""), c["k"])
         ctx.violation(sig, what, {"family": "stl", "case": c})
     ctx.extra["rejections_by_signature"] = per_sig
-    if ctx.tier == "thorough":
+    # vacuity guard: every predicate must have been evaluated with its antecedent true (a defect that
+    # stops the pipeline early is reported as the violation it is, not as vacuity)
+    idle = [p for p in PREDICATES if ex.get(p, 0) == 0]
+    if idle and not ctx.violations:
+        raise core.Infra("predicates never exercised: %s" % idle)
+    if ctx.tier == "thorough" and not ctx.violations:
         ctx.extra["selftest_corruptions_rejected"] = selftest(ctx, raw)
     ctx.assumptions += [
         "the independent record parser/encoder (harness/objstl/stl_rec.go) implements the binary STL layout",
